@@ -46,9 +46,25 @@ static inline void emitM(const char *suite, const std::string &req, const std::s
 static inline void emitO(const char *suite, const std::string &req, const std::string &real) { fprintf(g_proto, "O\t%s\t%s\t%s\n", suite, req.c_str(), real.c_str()); }
 static inline void emitA(const char *suite, const std::string &prop, const std::string &desc) { fprintf(g_proto, "A\t%s\t%s\t%s\n", suite, prop.c_str(), desc.c_str()); }
 static inline void emitK(const char *suite, const std::string &id, const std::string &desc) { fprintf(g_proto, "K\t%s\t%s\t%s\n", suite, id.c_str(), desc.c_str()); }
-// T: case marker, only with VERIF_TRACE=1 (used to locate the input on which the real code crashed or hung)
+// T: case marker, only with VERIF_TRACE=1 (used to locate the input on which the real code crashed).
+// Every case also re-arms a watchdog: if the real code does not come back within 45 s the harness reports the case as a hang
+// (H line) and exits with status 97.
+#include <signal.h>
+static char g_last_case[1 << 16];
 static inline bool tracing() { static int t = -1; if (t < 0) { const char *v = getenv("VERIF_TRACE"); t = (v && *v == '1') ? 1 : 0; } return t == 1; }
-static inline void trace_case(const char *suite, const std::string &desc) { if (tracing()) { fprintf(g_proto, "T\t%s\t-\t%s\n", suite, desc.c_str()); fflush(g_proto); } }
+static inline void wv_on_alarm(int) {
+  const char *pre = "H\thang\t-\t"; int fd = g_proto ? fileno(g_proto) : 2;
+  fflush(g_proto);
+  ssize_t r = write(fd, pre, strlen(pre)); r = write(fd, g_last_case, strlen(g_last_case)); r = write(fd, "\n", 1); (void)r;
+  _exit(97);
+}
+static inline void trace_case(const char *suite, const std::string &desc) {
+  static bool installed = false;
+  if (!installed) { signal(SIGALRM, wv_on_alarm); installed = true; }
+  snprintf(g_last_case, sizeof g_last_case, "%s: %s", suite, desc.c_str());
+  alarm(45);
+  if (tracing()) { fprintf(g_proto, "T\t%s\t-\t%s\n", suite, desc.c_str()); fflush(g_proto); }
+}
 static inline void emitI(const char *suite, const std::string &key, const std::string &val) { fprintf(g_proto, "I\t%s\t%s\t%s\n", suite, key.c_str(), val.c_str()); }
 
 // ---- one PRNG for every random choice ----
@@ -58,6 +74,10 @@ struct Rng {
   uint64_t next() { uint64_t z = (s += 0x9E3779B97F4A7C15ull); z = (z ^ (z >> 30)) * 0xBF58476D1CE4E5B9ull; z = (z ^ (z >> 27)) * 0x94D049BB133111EBull; return z ^ (z >> 31); }
   uint32_t below(uint32_t n) { return n ? (uint32_t)(next() % n) : 0; }
   bytes buf(size_t n) { bytes b(n); for (auto &x : b) x = (unsigned char)next(); return b; }
+  // plaintext-like data aimed at the pad-stripping logic: about half of the bytes at the end of a 16-byte block are 1..16
+  bytes padlike(size_t n) { bytes b = buf(n); for (size_t i = 15; i < n; i += 16) if (next() & 1) b[i] = (unsigned char)(1 + next() % 16); return b; }
+  // a 16-byte key; every other call contains a zero byte (C strings end there)
+  bytes key16() { bytes k = buf(16); if (next() & 1) k[next() % 16] = 0; if (next() % 8 == 0) k[0] = 0; return k; }
   // NUL-free bytes
   bytes nzbuf(size_t n) { bytes b(n); for (auto &x : b) x = (unsigned char)(1 + next() % 255); return b; }
 };
